@@ -320,6 +320,14 @@ func c12Judge(r *h.Result, j c12Judged, tier string, confirm bool) {
 		if confirm {
 			if j2 := c12Confirm(cs, tier); j2.cr != nil {
 				cr = j2.cr
+			} else if cr.Class == "oom" {
+				// memory exhaustion of the child (6 GiB address space) with what earlier requests left on the heap: the request
+				// alone stays below the limit. Memory is outside the model (partial): the memory family, like a reproduced one
+				r.Count("crash-not-reproduced-alone")
+				r.Count("outcome:process-crash")
+				r.Violate("C12/memory/"+cs.Endpoint, fmt.Sprintf("%s %s exhausts memory together with what earlier requests of the same child left allocated: %s at %s (address space of the child limited to 6 GiB; alone the request stays below the limit)", cs.Method, c12Short(cs.Path), cr.Panic, cr.Frame),
+					replay(map[string]any{"crash": cr}))
+				return
 			} else {
 				r.Count("crash-not-reproduced-alone")
 				r.Violate("C12/crash/"+cs.Endpoint+"/"+cr.Class+"/delayed", fmt.Sprintf("child process died (%s at %s) while %s %s was in flight; the request alone does not reproduce it (delayed fault of an earlier request's goroutine)", cr.Panic, cr.Frame, cs.Method, cs.Path),
@@ -427,6 +435,9 @@ func c12(r *h.Result, rng *h.Rng, tier string, replay string) error {
 		"stage streams: see streams."
 	r.Stream("explore: every read endpoint through fakes.NewReaderRouter (real apirouterv1 routes) over loopback HTTP in child processes; oracle = child alive, response within the deadline, goroutine census and open result sets back to baseline (exploration of the runtime part: support, not an obligation)")
 
+	if os.Getenv("C12_ONLY") == "status-all" { // development aid: only the controller status stream
+		return c12Stages(r, rng.Fork(), tier)
+	}
 	// known witnesses first (the corpus of this property), then the tier's quota
 	var cases []*c12Case
 	for _, c := range c12Corpus() {
@@ -525,6 +536,10 @@ func c12Replay(r *h.Result, file, tier string) error {
 	j := c12Confirm(cs, tier)
 	r.Case("replay", true)
 	c12Judge(r, j, tier, false)
+	if cs.Stage != nil && cs.Stage.Kind == "stagedrain" && j.o != nil && j.o.StageOut == "blocked" {
+		r.Violate("C12/leak/stage-drain", "the in-process stage stops at the error entry and never reads its input again: the upstream sender stays blocked in its send for ever",
+			map[string]any{"case": cs})
+	}
 	if j.o != nil {
 		r.Sample(map[string]any{"replayed": cs.Method + " " + cs.Path, "outcome": j.o})
 	}
@@ -568,6 +583,14 @@ func c12Corpus() []*c12Case {
 		// any fault in a pipeline stage killed the process (TamePanic deferred in the nested form); witness from the C09 agent
 		win(&c12Case{Endpoint: "loki/query_range", Method: "GET", Query: `{a="b"} | json | label_format x="y"`, Class: "corpus TamePanic",
 			Path: "/loki/api/v1/query_range?query=%7Ba%3D%22b%22%7D+%7C+json+%7C+label_format+x%3D%22y%22&step=1&start=" + start + "&end=" + end, Answers: one(3)}),
+		// round 3: the tail's service goroutine ran the planner chain without a recover (`| regexp` without a parameter faults in it)
+		win(&c12Case{Kind: "tail", Endpoint: "loki/tail", Method: "GET", Query: `{a="b"} | regexp `, Class: "corpus tail planner fault", GoneAfter: 2,
+			Path: "/loki/api/v1/tail?query=%7Ba%3D%22b%22%7D+%7C+regexp+", Answers: []c12Answer{{Shape: "logs", N: 5, Seed: 3}}}),
+		// round 3: recursion depth of the participle parsers grows with the text: stack overflow (fatal, not recoverable)
+		win(&c12Case{Endpoint: "loki/query_range", Method: "GET", Query: "deep", Class: "corpus deep nesting LogQL",
+			Path: "/loki/api/v1/query_range?query=%7Ba%3D%22b%22%7D%20%7C%20" + strings.Repeat("(", 300000) + "a%3D%22b%22" + strings.Repeat(")", 300000) + "&start=" + start + "&end=" + end + "&step=15", Answers: one(1)}),
+		win(&c12Case{Endpoint: "tempo/search", Method: "GET", Query: "deep", Class: "corpus deep nesting TraceQL",
+			Path: "/api/search?q=%7B" + strings.Repeat("(", 450000) + ".a%3D%22b%22" + strings.Repeat(")", 450000) + "%7D&start=1700000000&end=1700003600", Answers: one(1)}),
 		// A21
 		win(&c12Case{Endpoint: "loki/query_range", Method: "GET", Query: `count_over_time({a="b"} | json [1m])`, Class: "corpus A21 bucket index",
 			Path: "/loki/api/v1/query_range?query=count_over_time%28%7Ba%3D%22b%22%7D+%7C+json+%5B1m%5D%29&step=60&start=" + start + "&end=" + end, Answers: []c12Answer{{Shape: "logs-at-end", N: 150, Seed: 3}}}),
